@@ -402,7 +402,10 @@ fn huge(rng: &mut Rng, bin: bool, maxcode: u64) -> Vec<u8> {
 
 /// One case line.  `opt` selects the family:
 /// rt | layout | mutate | arbitrary | utf8 | huge | corrupt | fault | ls
-pub fn gen_case(rng: &mut Rng, opt: &str, _thorough: bool) -> String {
+pub fn gen_case(rng: &mut Rng, opt: &str, thorough: bool) -> String {
+    if opt.starts_with("scale") {
+        return gen_scale(rng, opt, thorough);
+    }
     let (ty, maxcode) = *rng.pick(TYPES);
     let family = if opt.is_empty() || opt == "mix" {
         *rng.pick(&["rt", "rt", "layout", "layout", "mutate", "mutate", "arbitrary", "utf8", "huge", "corrupt", "fault", "ls"])
@@ -415,6 +418,7 @@ pub fn gen_case(rng: &mut Rng, opt: &str, _thorough: bool) -> String {
     let mut case = Case {
         fmt: if bin { "aig" } else { "aag" }.into(), ty: ty.into(), mode: mode.into(),
         k: None, ls: false, data: vec![], expect: None, tok: None, w: 0,
+        dtext: None, cut: None, post: None, chunk: None,
     };
     let circ = gen_circ(rng, bin, maxcode);
     match family {
@@ -547,6 +551,7 @@ pub fn fault_sweep(rng: &mut Rng) -> Vec<String> {
         .map(|k| Case {
             fmt: if bin { "aig" } else { "aag" }.into(), ty: ty.into(), mode: mode.into(), k: Some(k), ls: false,
             data: r.bytes.clone(), expect: None, tok: None, w: 0,
+            dtext: None, cut: None, post: None, chunk: None,
         }.line())
         .collect()
 }
